@@ -60,7 +60,8 @@ fn add_headers(flow: &mut F<Prepare>, rng: &mut Rng, hop: usize, has_host: bool,
                 value = b"gzip".to_vec();
                 rec.cov("added/transfer-encoding-gzip");
             }
-            "content-length" => value = b"3".to_vec(),
+            // (now and then padded with zeros to a fixed width)
+            "content-length" => value = if rng.chance(1, 3) { b"00000000000000000003".to_vec() } else { b"3".to_vec() },
             "host" => value = format!("added{}.test", hop).into_bytes(),
             _ => {
                 if rng.chance(1, 6) {
@@ -243,6 +244,17 @@ fn case(rng: &mut Rng, rec: &mut Rec) {
             rec.call();
             // half of the heads go out through small, varying buffers
             let small = rng.chance(1, 2);
+            // (and one in five through buffers that are exactly as long as the line to come)
+            if rng.chance(1, 5) {
+                rec.cov("written/line-sized-buffers");
+                match write_head_exact(&mut s) {
+                    Ok(head) => {
+                        check(&head, &added, &eff, policy, rec);
+                    }
+                    Err(e) => rec.fail("C16/added-header-not-written-through-line-sized-buffers", format!("depth {}: {} (added {:?})", hop_i, e, fmt_fields(&added))),
+                }
+                return;
+            }
             rec.cov(if small { "written/small-buffers" } else { "written/one-buffer" });
             let written = if small { write_head_small(&mut s, rng) } else { write_head_big(&mut s) };
             match written {
@@ -326,6 +338,7 @@ impl Property for P {
         }
         v.push(("content-length/depth0/*".into(), 5));
         v.push(("written/small-buffers".into(), 100));
+        v.push(("written/line-sized-buffers".into(), 100));
         v.push(("expect/*".into(), 50));
         v.push(("original-chunked".into(), 100));
         v.push(("despite-after-headers".into(), 50));
